@@ -79,7 +79,7 @@ static std::string li_str(const LProg& p, const LI& i) {
   if (i.kind == KIND_LABEL) return "L" + std::to_string(i.lbl) + ":";
   if (i.kind == KIND_JMP) return "b L" + std::to_string(i.lbl);
   std::string s = i.form;
-  if (i.kind == KIND_BR) return s + " " + p.names[size_t(i.ops[0].val)] + ",L" + std::to_string(i.lbl);
+  if (i.kind == KIND_BR) return s + " " + (i.ops.empty() ? std::string("") : p.names[size_t(i.ops[0].val)] + ",") + "L" + std::to_string(i.lbl);
   for (size_t k = 0; k < i.ops.size(); k++) {
     s += k ? "," : " ";
     if (int(k) == i.list_first) s += "{";
@@ -486,7 +486,7 @@ static bool build(const Desc& d, LProg& p, size_t& body_from, size_t& body_to) {
       I.ops[1].role = role_of(f.cls, 1);
       I.ops.push_back(Opd{vv[size_t(sp.d)], role_of(f.cls, 2), 64}); I.ops.push_back(Opd{vv[size_t(sp.m)], role_of(f.cls, 3), 64});
     }
-    if (f.load || f.store) { I.has_mem = true; I.off = 512; I.mem_read = f.load; I.mem_write = f.store; }
+    if (f.load || f.store) { I.has_mem = true; I.off = 0; I.mem_read = f.load; I.mem_write = f.store; }
     // one virtual register at two list positions cannot be satisfied
     for (size_t x = 0; x < sp.sel.size(); x++) for (size_t y = x + 1; y < sp.sel.size(); y++) if (sp.sel[x] == sp.sel[y]) { if (lrole == 'R') p.unsat_r = true; else p.unsat_w = true; }
     return true;
